@@ -138,7 +138,7 @@ func (t *tracer) engineCase(g *gen, round int) {
 	})
 
 	mkSigner := func(j int, forInt bool) *signerKind {
-		key := g.rbytes(8 + g.r.Intn(16))
+		key := g.hmacKey()
 		switch j % 4 {
 		case 0:
 			if forInt {
